@@ -8,7 +8,8 @@ C05 / C10 line-protocol driver for the time model:
   start <rat> <clk>          build the initial state: start time, clock of the root routine 0
   nrt <fuel>                 run `main.process()` (at most fuel tasks)
   m adv <rat> | m run <clk>  one real-time environment move
-  dump                       print one line: events (times relative to start) `| end=<t> pend=<n>`
+  restart <rat> <clk>        main.reset() + reset() of every routine object + play the root again
+  dump                       print one line (events since the last start / restart): events (times relative to start) `| end=<t> pend=<n>`
 
 Tokens: rationals `p/q` or integers; clocks `sys`, `app`, `t<i>`;
 acts `y d`, `hang`, `yinf` (= hang), `yv K` (= hang; a non-numeric value), `log`, `send b`, `spawn r clk`, `tempo i x`, `beats i b`, `pause r`, `resume r`, `stop r`,
@@ -69,6 +70,7 @@ def parseAct (ws : List String) : Option Act :=
   | ["draw"] => some .draw
   | ["pull", r] => do some (.pull (← r.toNat?))
   | ["raise"] => some .raise
+  | ["defer", r, c, d] => do some (.defer (← r.toNat?) (← parseClk c) (← parseRat d))
   | ["etempo", i, x] => do some (.setTempo (← i.toNat?) (← parseRat x))  -- same map as `tempo=` at logical = elapsed time
   | _ => none
 
@@ -88,6 +90,7 @@ structure DS where
   start : Rat := 0
   s : S := {}
   now : Rat := 0
+  mark : Nat := 0        -- events before this index belong to an earlier play (see `restart`)
 
 def lookupD {α} (l : List (Nat × α)) (d : α) (i : Nat) : α :=
   match l.find? (·.1 == i) with
@@ -119,6 +122,12 @@ partial def loop (h out : IO.FS.Stream) (d : DS) : IO Unit := do
     | some t, some c =>
       loop h out { d with start := t, now := t, s := S.init (lookupD d.prog []) (lookupD d.tempi 1) t c }
     | _, _ => out.putStrLn "bad-start"; loop h out d
+  | ["restart", t, c] =>
+    match parseRat t, parseClk c with
+    | some t, some c =>
+      loop h out { d with start := t, now := t, mark := d.s.trace.length,
+                          s := d.s.restart (lookupD d.tempi 1) t c }
+    | _, _ => out.putStrLn "bad-restart"; loop h out d
   | ["nrt", n] =>
     match n.toNat? with
     | some n => loop h out { d with s := runAll d.s n }
@@ -132,7 +141,7 @@ partial def loop (h out : IO.FS.Stream) (d : DS) : IO Unit := do
     | some c => let r := (RtS.mk d.s d.now).step (.run c); loop h out { d with s := r.s, now := r.now }
     | none => out.putStrLn "bad-move"; loop h out d
   | ["dump"] =>
-    let evs := " ".intercalate (d.s.trace.reverse.map (fmtEv d.start d.s.genSeed))
+    let evs := " ".intercalate ((d.s.trace.reverse.drop d.mark).map (fmtEv d.start d.s.genSeed))
     out.putStrLn s!"{evs} | end={fmtRat (d.s.mainSecs - d.start)} pend={d.s.pend.length}"
     loop h out d
   | _ => out.putStrLn "bad-line"; loop h out d
